@@ -229,6 +229,9 @@ fn cmd_worker(args: &[String]) -> i32 {
         for t in &sc.threads {
             for (k, c) in t.iter().enumerate() {
                 *st.ops.entry(op_name(&c.op).to_string()).or_default() += 1;
+                if c.nest.is_some() {
+                    *st.ops.entry("format_content nested inside an inspector callback (same thread)".to_string()).or_default() += 1;
+                }
                 if k > 0 {
                     if t[k - 1] == *c {
                         st.back_to_back_identical += 1;
@@ -1083,7 +1086,7 @@ const HEADROOM_FAMILIES: usize = 6;
 
 fn headroom_compare(client: &mut vsim::coresim::refproc::RefClient, family: usize, depth: usize, stack_kib: u64, cfg: vsim::oracle::Cfg) -> std::io::Result<Option<String>> {
     use vsim::coresim::{Call, Op, Res};
-    let call = Call { op: Op::Content, doc: 0, cfg, feed_prev: false, via_clone: false };
+    let call = Call { op: Op::Content, doc: 0, cfg, feed_prev: false, via_clone: false, nest: None };
     let text = headroom_doc(family, depth);
     let small = client.query_on_stack(&call, &text, Some(stack_kib))?;
     if small == Res::Panic {
@@ -1123,7 +1126,7 @@ fn headroom_lane(thorough: bool) -> HeadroomOutcome {
     for family in 0..HEADROOM_FAMILIES {
         for &kib in stacks {
             let cfg = cfgs[(family + kib as usize) % 2];
-            let call = Call { op: Op::Content, doc: 0, cfg, feed_prev: false, via_clone: false };
+            let call = Call { op: Op::Content, doc: 0, cfg, feed_prev: false, via_clone: false, nest: None };
             let mut dies = |d: usize, client: &mut vsim::coresim::refproc::RefClient| -> std::io::Result<bool> { Ok(client.query_on_stack(&call, &headroom_doc(family, d), Some(kib))? == Res::Panic) };
             // exponential search, then bisection
             let mut lo = 8usize;
@@ -1234,7 +1237,7 @@ fn soak_call(k: u64) -> (String, vsim::coresim::Call) {
         6..=8 => Op::Source,
         _ => Op::Width,
     };
-    (text, vsim::coresim::Call { op, doc: 0, cfg, feed_prev: false, via_clone: false })
+    (text, vsim::coresim::Call { op, doc: 0, cfg, feed_prev: false, via_clone: false, nest: None })
 }
 
 fn cmd_soak(args: &[String]) -> i32 {
